@@ -405,8 +405,9 @@ def run(ctx):
                           "run loop would skip forever / report nothing" % arm)
         # the instr given to the check is decoded from mem[pc] *after* the command was read
         for g in guards:
-            e = expr_str(disp.expr(disp.term(g)["args"][0], 10))
-            okk = "mem(" in e and "pc(" in e
+            ee = disp.expr(disp.term(g)["args"][0], 14)
+            e = expr_str(ee, 300)
+            okk = dbg.reads_live_word(disp, ee, sp)
             ctx.oblig(okk, None)
             if not okk:
                 ctx.violation("halt-check-arg|%s" % arm, sp_file_line(disp.term(g).get("sp")), "`%s` checks HALT on `%s`, not on the word at the current PC" % (arm, e[:120]))
